@@ -655,7 +655,7 @@ func (p *Program) ReachFrom(roots []*ssa.Function, stopAtGo bool) map[*ssa.Funct
 			continue
 		}
 		outs := append([]*callgraph.Edge(nil), n.Out...)
-		sort.Slice(outs, func(i, j int) bool { return outs[i].Callee.Func.String() < outs[j].Callee.Func.String() })
+		sort.Slice(outs, func(i, j int) bool { return p.fnString(outs[i].Callee.Func) < p.fnString(outs[j].Callee.Func) })
 		for _, e := range outs {
 			if stopAtGo {
 				if _, isGo := e.Site.(*ssa.Go); isGo {
@@ -840,4 +840,17 @@ func (p *Program) CallsThrough(fn *ssa.Function, target *types.Func, depth int) 
 		}
 	})
 	return out
+}
+
+// fnString caches ssa.Function.String (it renders the receiver type every time).
+func (p *Program) fnString(fn *ssa.Function) string {
+	if p.fnNames == nil {
+		p.fnNames = map[*ssa.Function]string{}
+	}
+	if s, ok := p.fnNames[fn]; ok {
+		return s
+	}
+	s := fn.String()
+	p.fnNames[fn] = s
+	return s
 }
